@@ -36,13 +36,13 @@ def run(c):
     c.prove("SH.Props.C09", extra_files=["SH/Model/DiskCache.lean"])
     drv = c.driver(DRIVER)
     if binary and drv:
-        rc, out = c.go_run(binary, [f"-n={c.n(250, 6000)}"])
+        rc, out = c.go_run(binary, [f"-n={c.n(200, 1500)}"])
         c.harness_ok(rc, out, "verif-c09")
         c.correspond(out, drv)
-        rc, out = c.go_run(binary, [f"-n={c.n(10, 150)}", "-mode=enum", f"-seed={c.seed + 77}"])
+        rc, out = c.go_run(binary, [f"-n={c.n(8, 80)}", "-mode=enum", f"-seed={c.seed + 77}"])
         c.harness_ok(rc, out, "verif-c09 -mode=enum")
         c.correspond(out, drv, label="enum")
-        rc, out = c.go_run(binary, [f"-n={c.n(6, 60)}", "-mode=big"])
+        rc, out = c.go_run(binary, [f"-n={c.n(6, 30)}", "-mode=big"])
         c.harness_ok(rc, out, "verif-c09 -mode=big")
         c.correspond(out, drv, label="big")
         if c.tier == "thorough":
